@@ -9,6 +9,7 @@ GRID = [0, 0, 0.25, 0.5, 1, 2, 5]
 INTERVALS = [0.25, 0.5, 1, 2, 5]
 
 INT = ('int',)
+LOOPY_FOR_FORWARD = {'buffer', 'delay', 'rate_limit', 'map_async', 'timed_window', 'timed_window_unique', 'latest', 'partition'}
 
 
 def hashable(t):
@@ -62,30 +63,30 @@ DIRECT_OPS = ['map', 'starmap', 'filter', 'accumulate', 'slice', 'partition', 'p
 
 PROFILES = {
     # property -> (node pool, weights of modes, options)
-    'C01': dict(pool=SYNC_OPS, modes=['loopless', 'loopless', 'async', 'threaded'], md=0.3, sinks=['sync'], feedback=True),
-    'C10': dict(pool=SYNC_OPS + ASYNC_LOSSLESS + LOSSY, modes=['loopless', 'async', 'async', 'threaded'], md=0.85,
+    'C01': dict(pool=SYNC_OPS, modes=['loopless', 'loopless', 'async', 'threaded'], md=0.3, sinks=['sync'], feedback=True, forward=True),
+    'C10': dict(pool=SYNC_OPS + ASYNC_LOSSLESS + LOSSY, modes=['loopless', 'async', 'async', 'threaded'], md=0.85, falsy_dedup=True,
                 sinks=['sync', 'native', 'tornado', 'future']),
     'C02': dict(pool=ASYNC_LOSSLESS + ['map', 'filter', 'zip', 'union', 'accumulate', 'sliding_window', 'partition', 'flatten',
                                         'zip_latest', 'combine_latest', 'collect', 'pluck', 'starmap', 'slice', 'unique'],
-                need=ASYNC_LOSSLESS + ['zip', 'union'], modes=['async', 'async', 'async', 'threaded'], md=0.3, stalls=True,
+                need=ASYNC_LOSSLESS + ['zip', 'union'], modes=['async', 'async', 'async', 'threaded'], md=0.3, stalls=True, forward=True,
                 sinks=['sync', 'native', 'tornado', 'future']),
     'C03': dict(pool=['buffer', 'map_async', 'zip', 'rate_limit', 'map', 'filter', 'partition', 'sliding_window',
                       'timed_window', 'union', 'accumulate', 'delay', 'partition_t', 'flatten', 'slice',
                       'zip_latest', 'combine_latest', 'collect', 'pluck'],
-                need=['buffer', 'map_async', 'zip'], modes=['async', 'async', 'threaded'], md=0.2, await_all=True, stalls=True,
+                need=['buffer', 'map_async', 'zip'], modes=['async', 'async', 'threaded'], md=0.2, await_all=True, stalls=True, forward=True,
                 sinks=['native', 'tornado', 'future', 'sync']),
     'C04': dict(pool=SYNC_OPS + ASYNC_LOSSLESS + LOSSY, need=ASYNC_LOSSLESS + LOSSY + ['sink_async'],
-                modes=['async', 'async', 'async', 'threaded'], md=1.0, refs=True, inject_failures=True, stalls=True, sinks=['native', 'tornado', 'future', 'sync']),
-    'C05': dict(pool=SYNC_OPS + ASYNC_LOSSLESS + LOSSY, modes=['loopless', 'async', 'async', 'threaded'], md=1.0, refs=True, stalls=True,
+                modes=['async', 'async', 'async', 'threaded'], md=1.0, refs=True, inject_failures=True, stalls=True, falsy_dedup=True, sinks=['native', 'tornado', 'future', 'sync']),
+    'C05': dict(pool=SYNC_OPS + ASYNC_LOSSLESS + LOSSY, modes=['loopless', 'async', 'async', 'threaded'], md=1.0, refs=True, stalls=True, falsy_dedup=True,
                 sinks=['sync', 'native', 'tornado', 'future']),
-    'C08': dict(pool=['timed_window', 'partition_t', 'timed_window_unique', 'map', 'filter', 'buffer', 'flatten'],
+    'C08': dict(falsy_dedup=True, pool=['timed_window', 'partition_t', 'timed_window_unique', 'map', 'filter', 'buffer', 'flatten'],
                 need=['timed_window', 'partition_t', 'timed_window_unique'], modes=['async', 'async', 'threaded'], md=0.3,
                 sinks=['native', 'tornado', 'future', 'sync'], bursts=True),
     'C13': dict(pool=['rate_limit', 'delay', 'map', 'filter', 'union', 'buffer'], need=['rate_limit', 'delay'], stalls=True,
                 modes=['async', 'async', 'threaded'], md=0.2, sinks=['sync', 'native', 'tornado', 'future'], bursts=True),
     'C14': dict(pool=['latest', 'map', 'filter', 'union'], need=['latest'], modes=['async', 'async', 'threaded'], md=0.4, stalls=True,
                 sinks=['native', 'tornado', 'future', 'sync'], bursts=True),
-    'C16': dict(pool=DIRECT_OPS + ['rate_limit'], modes=['loopless', 'async', 'async', 'threaded'], md=1.0, refs=True,
+    'C16': dict(pool=DIRECT_OPS + ['rate_limit'], modes=['loopless', 'async', 'async', 'threaded'], md=1.0, refs=True, forward=True,
                 sinks=['sync', 'native', 'tornado', 'future']),
 }
 
@@ -293,11 +294,17 @@ class G:
                 return False
             p = self.pick(c)
             t = self.types[p]
-            if self.chance(0.3) and minlen(t) >= 2:
-                i, j = r.randrange(minlen(t)), r.randrange(minlen(t))
-                self.add({'op': 'pluck', 'up': [p], 'pick': [i, j]}, ('fix', (member(t, i), member(t, j))))
+            L = minlen(t)
+
+            def idx():
+                i = r.randrange(L)
+                # negative indices only where the length is fixed (they then name the same member)
+                return i - L if (t[0] == 'fix' and self.chance(0.25)) else i
+            if self.chance(0.4):
+                picks = [idx() for _ in range(self.pick([1, 1, 2, 3]))]
+                self.add({'op': 'pluck', 'up': [p], 'pick': picks}, ('fix', tuple(member(t, i) for i in picks)))
             else:
-                i = r.randrange(minlen(t))
+                i = idx()
                 self.add({'op': 'pluck', 'up': [p], 'pick': i}, member(t, i))
             return True
         if op == 'collect':
@@ -413,6 +420,17 @@ class G:
         n_entries = self.pick([1, 1, 1, 2, 2, 3])
         for _ in range(n_entries):
             self.add({'op': 'source'}, INT)
+        if pf.get('falsy_dedup') and mode != 'loopless' and self.chance(0.12):
+            # falsy values (0 / ()) meeting a de-duplicating window: "empty" must not be taken for "absent"
+            m = self.pick([1, 2])
+            f = self.add({'op': 'map', 'up': [0], 'fn': ['falsy', self.pick([2, 3]), 0, self.pick([0, 1])]}, ('any', True))
+            self.add({'op': 'timed_window_unique', 'up': [f], 'interval': self.pick(INTERVALS), 'keep': self.pick(['first', 'last', 'last']),
+                      'key': ['wmod', m]}, ('var', 0, ('any', True)))
+        if pf.get('falsy_dedup') and self.chance(0.12):
+            m = self.pick([1, 2])
+            f = self.add({'op': 'map', 'up': [0], 'fn': ['falsy', self.pick([2, 3]), 0, self.pick([0, 1])]}, ('any', True))
+            self.add({'op': 'partition_unique', 'up': [f], 'n': m, 'keep': self.pick(['first', 'last', 'last']), 'key': ['wmod', m]},
+                     ('fix', tuple(('any', True) for _ in range(m))))
         feedback = []
         if pf.get('feedback') and self.chance(0.15):
             # feedback template: src -> unique -> map(x -> (x+1, x+2) while x < K) -> flatten -> back into src
@@ -440,6 +458,31 @@ class G:
                 continue
             if n['id'] not in has_child or self.chance(0.15):
                 self.add_sink(n['id'], mode)
+        if pf.get('forward') and self.chance(0.2):
+            # the idiom a.sink(b.emit): one synchronous sink on an int-typed node forwards into another entry point
+            srcs = [n['id'] for n in self.graph if n['op'] == 'source']
+
+            def ancestors(nid, acc):
+                for u in self.graph[nid].get('up', []):
+                    if u not in acc:
+                        acc.add(u)
+                        ancestors(u, acc)
+                return acc
+            cands = []
+            for n in self.graph:
+                if n['op'] == 'sink' and n.get('kind', 'sync') == 'sync' and self.types.get(n['up'][0]) == INT:
+                    anc = ancestors(n['id'], set())
+                    if mode == 'threaded' and any(self.graph[a]['op'] in LOOPY_FOR_FORWARD for a in anc):
+                        # below a forwarding coroutine the nested emit would be a *blocking* emit issued from the loop
+                        # thread - which streamz cannot serve (sync() from the loop thread); not a schedule, a misuse
+                        continue
+                    ts = [t for t in srcs if t not in anc]
+                    if ts:
+                        cands.append((n, ts))
+            if cands and not feedback:
+                n, ts = self.pick(cands)
+                n['kind'] = 'emit_into'
+                n['target'] = self.pick(ts)
         if mode == 'async':
             # an entry that is only ever joined into the pipeline may be a plain Stream(): it inherits loop and
             # mode from the pipeline it extends (C19) and must then behave like every other entry
